@@ -673,7 +673,9 @@ class C45(Prop):
         "numpy buffers are identified with (item type, element list). A function is identified by "
         "the NAME of the object whose func is evaluated (two Function objects with one name and "
         "different callables share keys by design). Not modelled: AbstractFunction._key (raises "
-        "NotImplementedError; a function object is never a child), SurrogateOperator nodes are "
+        "NotImplementedError; a function object is never a child), the per-object key cache "
+        "(a tree that was hashed keeps its key when a Scalar below it is changed with set_value: "
+        "open known finding, oracle only), SurrogateOperator nodes are "
         "function nodes named after their factory (not generated by the harness), Python's str hash "
         "(only 'equal keys give equal hashes' is used). The theorems are about the model; the "
         "implementation is covered on the generated tree pairs only.")
@@ -686,7 +688,9 @@ class C45(Prop):
             "right operand, unary minus, previous_timestep/previous_iteration of leaves and of whole "
             "trees, key caches warmed before copying, shared leaf objects): identical rebuilds from "
             "fresh objects, single-leaf mutations of one datum (domain-size-only, shift-only, shape-"
-            "only, one index, one sparse entry, storage type, name, domain list order), swapped "
+            "only, one index, one sparse entry, storage type, name, domain list order, KIND of domain "
+            "only - subdomain / interface / boundary grid with coinciding ids), Scalar.set_value "
+            "histories, swapped "
             "children, changed operation, independent pairs, index arrays > 1000 entries differing in "
             "the middle, function nodes (known-finding region); non-trivial = the two trees differ "
             "or have more than one node")
